@@ -372,7 +372,8 @@ def batch_files(max_n, lo, hi, seed, per):
     for shape in R.shapes(max_n)[lo:hi]:
         n = R.n_features(shape)
         allc = list(R.all_cards(shape))
-        cl = (allc if len(allc) <= per else rnd.sample(allc, per)) + [star_cards(shape, rnd) for _ in range(2)]
+        from .common import zero_group_cards
+        cl = (allc if len(allc) <= per else rnd.sample(allc, per)) + [star_cards(shape, rnd) for _ in range(2)] + zero_group_cards(shape)
         for cards in cl:
             names = None
             tcodes = [rnd.choice([0, 0, 1, 2, 3, 4]) for _ in range(n)]
@@ -557,6 +558,7 @@ def batches(tier, seed):
     b += [('batch_trees', [lo, lo + st, full]) for lo in range(0, nt, st)]
     b += [('batch_lexer_contract', [lo, lo + 400]) for lo in range(0, 1400, 400)]
     b.append(('batch_dups', []))
+    b += [('batch_impl_pairs', [lo, lo + 324]) for lo in range(0, 1296, 324)]
     b.append(('batch_typed_values', [seed]))
     return b
 
@@ -585,6 +587,10 @@ def replay_dups(k):
         return ['%s | constraints %r' % (b[:400], rt.DUP_CTC_SETS[k]) for b in uvlio.file_roundtrip(m)]
     except Exception as exc:
         return ['round trip raises %s: %s (constraints %r)' % (type(exc).__name__, exc, rt.DUP_CTC_SETS[k])]
+
+
+def batch_impl_pairs(lo, hi):
+    return rt.impl_pairs_batch(__name__, lo, hi, 'uvl-constraint-roundtrip')
 
 
 def batch_dups():
